@@ -9,6 +9,7 @@ import (
 	"strconv"
 	"time"
 
+	"github.com/goreleaser/nfpm/v2/files"
 	v "github.com/goreleaser/nfpm/v2/internal/zzverif"
 	"github.com/goreleaser/nfpm/v2/internal/zzverif/models"
 	"github.com/goreleaser/nfpm/v2/internal/zzverif/scen"
@@ -30,6 +31,11 @@ func verifBuild(sc *scen.Scenario, nsegs int) ([]apkSegment, bool) {
 // every file carries the SHA-1 of its bytes, size is the sum of the file sizes.
 func Verif_C03_ApkDigests() {
 	sc := scen.Payload(scen.Options{SymContent: true, Second: -1})
+	if v.NondetBool("symlink.to.a.path.that.exists.on.the.build.host") {
+		// its size (of the TARGET file) must not count: only regular files are shipped bytes
+		big := models.AddFile("/src/target", bytes.Repeat([]byte("t"), 3000), 0o644, sc.MTime)
+		sc.Info.Contents = append(sc.Info.Contents, &files.Content{Source: big, Destination: "/zz/abs", Type: files.TypeSymlink})
+	}
 	segs, ok := verifBuild(sc, 2)
 	v.Reach("C03.apk.ran")
 	if !ok {
